@@ -102,6 +102,9 @@ func World(t *T, s *model.Schema, d *model.Doc, opName string, vars map[string]*
 			if o.Hostile {
 				if ty.Nullable().IsList() {
 					kinds = append(kinds, "notlist", "elem")
+					if named.Kind == model.KEnum || (named.Kind == model.KScalar && !builtinScalar(ty.Name)) {
+						kinds = append(kinds, "elem", "elem", "elem") // items whose serializer yields nothing or raises
+					}
 				}
 				if ty.Nullable().Named() {
 					switch {
